@@ -39,6 +39,10 @@ CLAIMED = {
    text="Bounded model checking with the crash point as a variable: apply_records, rewind, clear and replace_all_events of FileSystemEventLog run from the MIR of the current tree over the vfs model; the process dies before the j-th mutating file operation of the call (every j) or an append is torn at a solver-chosen byte offset, then the restart path (fresh instance + load_tree) runs on what is left. Obligation: the restart succeeds and the log equals its state before or after the interrupted operation. Violations are confirmed by writing the predicted disk image and re-opening it with the real code.",
    note="File-system event log only; each modelled file operation is atomic and torn writes are modelled for appends. Known findings (torn tail is not recovered; replace_all_events is not crash-atomic) are listed in known_findings.txt. Outside: sqlite transactions, vault-file rewrites, multi-file operations of LocalAccount, the OS's real write atomicity, 'the folder served equals the replay of its log' after restart.",
    design="DESIGN.md section 3, C13"),
+ "C11": dict(
+   text="Bounded model checking of the server's decision functions from the MIR of sos-server: (A) AccessControlConfig::is_allowed_access for every configuration of <= 2 (quick) / 3 allow and deny entries (each list present or absent) with symbolic account ids - an id on the deny list or absent from a configured allow list is refused, everything else admitted; counterexamples replayed natively. (B) authenticate_endpoint with bearer(), BearerToken::new and Backend::verify_device: over header id present/absent, token with/without the legacy '.' form, account existing or not, 0..2 trusted device keys each verifying or not, four access configurations - a caller is returned only if the token has the current form, the access check passed and, for an existing account, a trusted key verified the signature over exactly the signed bytes it was given.",
+   note="Decision functions only. Trusted: rustc MIR, mirsym, harness models (Ed25519 verify as an uninterpreted predicate per key, bs58/signature decoding nondeterministic, uncontended locks), z3. Part B counterexamples are model-level (the function is private, only reachable through HTTP). Outside (the larger part of C11): that each route calls authenticate_endpoint with the right bytes, revocation refresh, side effects of refused requests.",
+   design="DESIGN.md section 3, C11"),
  "C08": dict(
    text="Bounded model checking of the real comparison code: CommitTree::{append,commit,head,proof,compare} and CommitProof::verify_leaves are executed from the MIR of the current tree for every pair of sequence lengths up to the bound (4x4 quick, 7x7 thorough) with symbolic leaf identifiers, so one solver query covers every equality pattern between the two logs (repeats, equal leaves over different prefixes). The oracle is the prefix relation on the raw sequences; z3 decides each implication per path, counterexamples are replayed on the real CommitTree. The tests use one pair of trees with unique leaves where one extends the other.",
    note="Trusted: rustc MIR, the mirsym interpreter, the ideal-hash port of rs_merkle 1.5 (compared with the real crate on every run: roots, leaves, proofs, verification matrix for sizes <= 8, batched commits, rollbacks), collision-freeness of SHA-256, z3. Bounds: sequence lengths. Outside: proof (de)serialisation (C14/C15), the network around the ancestor scan.",
